@@ -273,9 +273,9 @@ def check_extrema(ctx):
                     ok = 'self.%s' % attr in args and len(args) == 2
                     cnt = [a for a in args if a != 'self.%s' % attr][0] if ok else None
                     c = conds.of(st)
-                    # unconditional w.r.t. loop-variant tests
-                    ok = ok and not [e for _, e, _ in __import__('ssjlint.guards', fromlist=['literals']).literals(c)
-                                     if any(isinstance(y, ast.Name) for y in ast.walk(e))]
+                    # unconditional: the path condition is a tautology
+                    from ..guards import TRUE as _T
+                    ok = ok and Universe(int_atoms=lambda a: True).equivalent(c, _T) is None
                     why = 'self.%s = %s is not an unconditional running %s' % (attr, U(v), 'minimum' if op == '<' else 'maximum')
                 else:
                     cnt = U(v)
